@@ -27,6 +27,8 @@ TraceDesync == Get(C0, "desync", 0)
 TraceFps == Get(C0, "fps", 60)
 TraceTimeout == Get(C0, "timeout", 2000)
 TraceNotify == Get(C0, "notify", 500)
+TraceMaxBehind == Get(C0, "max_behind", 10)
+TraceCatchup == Get(C0, "catchup", 1)
 
 VARIABLES l, drift
 
@@ -118,6 +120,12 @@ SSnap(s, cs, t) ==
     remotes |-> [i \in 1..Len(s.raddrs) |-> ESnap(s.eps[s.raddrs[i]], t)],
     spectators |-> [i \in 1..Len(s.saddrs) |-> ESnap(s.eps[s.saddrs[i]], t)] ]
 
+SpecSnap(s, t) ==
+  [ running |-> s.running, num_players |-> s.np, current_frame |-> s.cur, last_recv_frame |-> s.last_recv,
+    max_frames_behind |-> s.max_behind, catchup_speed |-> s.catchup, evq |-> Len(s.evq),
+    host_status |-> [i \in 1..s.np |-> <<s.host_status[i-1].disc, s.host_status[i-1].last>>],
+    ring |-> [i \in 1..SpectatorBuffer |-> s.ring[i-1][0].frame] ]
+
 \* names of the fields of record a that differ in b (fields missing in b are ignored)
 RecDiff(a, b) == {k \in (DOMAIN a) \cap (DOMAIN b) : a[k] # b[k]}
 
@@ -134,7 +142,10 @@ SnapDiff(sp, sn) ==
 
 \* fields of the observation line compared with the implementation's line
 LineFields == {"r", "q", "g", "cur", "conf", "run", "fa", "st", "evq", "buf", "lso", "og",
-               "rxi", "rxf", "ntx", "cur0", "g0", "ev"}
+               "rxi", "rxf", "ntx", "cur0", "g0", "ev", "lrf"}
+
+SpecSnapDiff(s, t, sn) ==
+  {<<"sn", k>> : k \in RecDiff(SpecSnap(s, t), sn)} \cup EDiff(<<ESnap(s.host, t)>>, <<sn.host>>)
 
 LineDiff(sl, rl) == {<<"line", k>> : k \in {x \in LineFields \cap (DOMAIN sl) \cap (DOMAIN rl) : sl[x] # rl[x]}}
 
@@ -175,7 +186,8 @@ TracePoll(r) ==
       line == ObsSession(res[1], game[p],
                 [ a |-> "poll", p |-> p, n |-> 0, t |-> now,
                   r |-> IF res[1].err # "" THEN "P:" \o res[1].err ELSE "ok",
-                  rxi |-> RxInputs(inbox[p]), rxf |-> RxFrom(inbox[p]), ntx |-> Len(res[2]) ])
+                  rxi |-> RxInputs(inbox[p]), rxf |-> RxFrom(inbox[p]), ntx |-> Len(res[2]),
+                  stx |-> StxOf(res[2]), srx |-> SrxOf(p, inbox[p]) ])
   IN /\ ss' = [ss EXCEPT ![p] = res[1]]
      /\ inbox' = [inbox EXCEPT ![p] = <<>>]
      /\ net' = Transmit(net, p, res[2], 1)
@@ -254,6 +266,32 @@ TraceDly(r) ==
                 \cup (IF Has(r, "tx") THEN {<<"tx", to>> : to \in {x \in PeerIds : SentTo(res[2], x) # LoggedTo(r.tx, x)}} ELSE {})
                 \cup (IF Has(r, "sn") THEN SnapDiff(SSnap(res[1], cells[p], now), r.sn) ELSE {}))
 
+TraceTickSpec(r) ==
+  LET p == r.p
+      pre == InboxDiff(r, p)
+      out == SP_AdvanceFrame(ss[p], inbox[p], now)[2]
+  IN /\ TickSpecWith(p)
+     /\ Note(r, pre \cup LineDiff(lastLine', r)
+                \cup (IF Has(r, "tx") THEN {<<"tx", to>> : to \in {x \in PeerIds : SentTo(out, x) # LoggedTo(r.tx, x)}} ELSE {})
+                \cup (IF Has(r, "sn") THEN SpecSnapDiff(ss'[p], now', r.sn) ELSE {}))
+
+TracePollSpec(r) ==
+  LET p == r.p
+      pre == InboxDiff(r, p)
+      out == SP_Poll(ss[p], inbox[p], now)[2]
+  IN /\ PollSpecWith(p)
+     /\ Note(r, pre \cup LineDiff(lastLine', r)
+                \cup (IF Has(r, "tx") THEN {<<"tx", to>> : to \in {x \in PeerIds : SentTo(out, x) # LoggedTo(r.tx, x)}} ELSE {})
+                \cup (IF Has(r, "sn") THEN SpecSnapDiff(ss'[p], now', r.sn) ELSE {}))
+
+TraceEvSpec(r) ==
+  LET p == r.p
+      res == SP_Events(ss[p])
+  IN /\ ss' = [ss EXCEPT ![p] = res[1]]
+     /\ Feed([a |-> "ev", p |-> p, n |-> 0, t |-> now, r |-> "ok", ev |-> res[2]])
+     /\ UNCHANGED <<cells, game, net, inbox, now, alive, dups>>
+     /\ Note(r, IF res[2] # r.ev THEN {<<"ev">>} ELSE {})
+
 Skip == UNCHANGED sysvars /\ UNCHANGED drift
 
 TraceInit == Init /\ l = 2 /\ drift = <<>>
@@ -263,9 +301,13 @@ TraceNext ==
   /\ l' = l + 1
   /\ LET r == Rec[l]
          skip == Has(r, "r") /\ r.r = "skip"
-         spec == Has(r, "p") /\ r.p \in PeerIds /\ r.p \notin P2PIds
-     IN IF skip \/ spec \/ drift # <<>> THEN Skip
-        ELSE CASE r.a = "tick" -> TraceTick(r)
+         spec == Has(r, "p") /\ r.p \in SpecIds
+     IN IF skip \/ drift # <<>> THEN Skip
+        ELSE CASE r.a = "tick" /\ spec -> TraceTickSpec(r)
+               [] r.a = "poll" /\ spec -> TracePollSpec(r)
+               [] r.a = "ev" /\ spec   -> TraceEvSpec(r)
+               [] r.a = "stats" -> Skip
+               [] r.a = "tick" -> TraceTick(r)
                [] r.a = "poll" -> TracePoll(r)
                [] r.a = "ev"   -> TraceEv(r)
                [] r.a \in {"dlv", "drop", "dup"} -> TraceNet(r)
